@@ -39,6 +39,7 @@ class Rec:
         self.errors = []
         self._fp_count = {}
         self.proved = {}
+        self.fp_override = None  # set by a harness when the whole configuration is one known failing input class
 
     # ---- bookkeeping helpers
     def assume_note(self, text):
@@ -70,7 +71,7 @@ class Rec:
         if r == "unknown":
             self.inconclusive.append(f"{self.cfg.get('name')}: {name}: solver unknown")
             return False
-        fp = fingerprint or name
+        fp = self.fp_override or fingerprint or name
         n = self._fp_count.get(fp, 0)
         self._fp_count[fp] = n + 1
         if n < MAX_REPLAYS_PER_FP:
